@@ -154,8 +154,10 @@ IpOf(tech) == CASE tech = "fp" -> A2 [] tech = "cfi" -> A1 [] tech = "cfiend" ->
 \* a chain is buildable when a frame found by scanning is not followed by a frame that needs its frame pointer
 Buildable(ch) == PadOk(ch) /\ ch[1].tech # "cfiend" /\ \A k \in 1..(Len(ch) - 1) : ch[k].tech = "scan" => ch[k+1].tech # "fp"
 \* layout: returns [words, frames]; frame k has sp_k; its caller record sits above it
-RECURSIVE Lay(_,_,_,_,_)
-Lay(ch, k, sp, words, fr) ==        \* words: function address -> value (partial, as a set of pairs)
+RECURSIVE Lay(_,_,_,_,_,_)
+\* fill: on Windows the slack between the frame register and the {saved rbp, return address} record is not empty but holds, in each 16-byte
+\* slot, a pointer to a caller's buffer followed by a non-canonical word (a double, a hash): plausible until the return address is looked at
+Lay(ch, k, sp, words, fr, fill) ==        \* words: function address -> value (partial, as a set of pairs)
   IF k > Len(ch) THEN [words |-> words, frames |-> fr, endsp |-> sp]
   ELSE LET c == ch[k]
            nextIp == IF k < Len(ch) THEN IpOf(ch[k+1].tech) ELSE A4 + 8      \* the oldest caller: in M2; above it only zero words
@@ -166,23 +168,24 @@ Lay(ch, k, sp, words, fr) ==        \* words: function address -> value (partial
               LET rec == IF Os = "windows" THEN sp + 16 * c.pad ELSE sp + Ptr * c.pad
                   csp == rec + 16
                   cbp == IF nextNeedsFp THEN (IF Os = "windows" THEN csp ELSE csp + Ptr * ch[k+1].pad) ELSE csp      \* a readable, sane value >= csp
-              IN Lay(ch, k + 1, csp, words \cup {<<rec, cbp>>, <<rec + 8, nextIp>>}, Append(fr, [ip |-> nextIp, sp |-> csp, trust |-> "frame_pointer", bp |-> rec]))
+                  filler == IF fill /\ Os = "windows" THEN UNION {{<<sp + 16 * j, rec>>, <<sp + 16 * j + 8, 1073741824>>} : j \in 0..(c.pad - 1)} ELSE {}
+              IN Lay(ch, k + 1, csp, words \cup filler \cup {<<rec, cbp>>, <<rec + 8, nextIp>>}, Append(fr, [ip |-> nextIp, sp |-> csp, trust |-> "frame_pointer", bp |-> rec]), fill)
          [] c.tech \in {"cfi", "cfiend"} ->
               \* rule std: cfa = sp + 16 ; ra at cfa-8 ; saved rbp at cfa-16
               LET csp == sp + 16
                   cbp == IF nextNeedsFp THEN (IF Os = "windows" THEN csp ELSE csp + Ptr * ch[k+1].pad) ELSE 0
-              IN Lay(ch, k + 1, csp, words \cup {<<sp, cbp>>, <<sp + 8, nextIp>>}, Append(fr, [ip |-> nextIp, sp |-> csp, trust |-> "cfi", bp |-> 0]))
+              IN Lay(ch, k + 1, csp, words \cup {<<sp, cbp>>, <<sp + 8, nextIp>>}, Append(fr, [ip |-> nextIp, sp |-> csp, trust |-> "cfi", bp |-> 0]), fill)
          [] c.tech = "scan" ->
               \* return address after pad filler words ; caller sp just above it
               LET ra == sp + Ptr * c.pad  csp == ra + Ptr
-              IN Lay(ch, k + 1, csp, words \cup {<<ra, nextIp>>}, Append(fr, [ip |-> nextIp, sp |-> csp, trust |-> "scan", bp |-> 0]))
-Built(ch) == LET bp0 == IF ch[1].tech = "fp" THEN (IF Os = "windows" THEN Base ELSE Base + Ptr * ch[1].pad) ELSE 0
-                 l == Lay(ch, 1, Base, {}, <<>>) IN
+              IN Lay(ch, k + 1, csp, words \cup {<<ra, nextIp>>}, Append(fr, [ip |-> nextIp, sp |-> csp, trust |-> "scan", bp |-> 0]), fill)
+Built(ch, fill) == LET bp0 == IF ch[1].tech = "fp" THEN (IF Os = "windows" THEN Base ELSE Base + Ptr * ch[1].pad) ELSE 0
+                 l == Lay(ch, 1, Base, {}, <<>>, fill) IN
    [words |-> l.words, frames |-> l.frames, bp0 |-> bp0, fits |-> l.endsp <= StackEnd]
 MemOf(ws) == [i \in 1..NW |-> LET a == Base + (i - 1) * Ptr  S == {w \in ws : w[1] = a} IN IF S = {} THEN 0 ELSE (CHOOSE w \in S : TRUE)[2]]
 InitBuilt == /\ rule = "std" /\ done = FALSE
-             /\ \E ch \in {c \in Chains : Buildable(c)} :
-                  LET b == Built(ch) IN
+             /\ \E fill \in (IF Os = "windows" THEN BOOLEAN ELSE {FALSE}) : \E ch \in {c \in Chains : Buildable(c)} :
+                  LET b == Built(ch, fill) IN
                   /\ b.fits
                   /\ mem = MemOf(b.words)
                   /\ expect = b.frames
